@@ -117,17 +117,22 @@ structure OpTok where
   kind : Kind
   ctor : EArgs
   opts : List Opt
+  /-- an entry outside the modelled builder programs (a `derive(Default)` value, a foreign type
+      handed to `add_structure<T>`): no entry model, no layout claim — the table-level theorems for
+      arbitrary entry bytes (C01, C02, C05) and C14 still apply -/
+  opq : Bool := false
 
 def parseOpTok (t : String) : Option OpTok := do
   let (obs, t) := if t.startsWith "!" then (false, (t.drop 1).toString) else (true, t)
   match t.splitOn "/" with
   | [k, ns, bs, ss, os] =>
-    let kind ← kindOfString k
+    let kind ← if k = "dflt" then some Kind.gas else kindOfString k
     let n ← parseNums ns ","
     let b ← parseBlobs bs
     let s ← parseSubs ss
     let o ← parseOpts os
-    some { observe := obs, kindName := k, kind, ctor := { n := n.toArray, b := b.toArray, s }, opts := o }
+    some { observe := obs, kindName := (if k = "dflt" then s!"dflt/{n.headD 0}" else k), kind,
+           ctor := { n := n.toArray, b := b.toArray, s }, opts := o, opq := k = "dflt" }
   | _ => none
 
 def cfgOfTable (t : String) (ctor : List Nat) : Option TblCfg :=
@@ -169,7 +174,7 @@ def parseOpTokRefs (t : String) : Option (OpTok × List (Place × Nat)) := do
   let (obs, t) := if t.startsWith "!" then (false, (t.drop 1).toString) else (true, t)
   match t.splitOn "/" with
   | [k, ns, bs, ss, os] =>
-    let kind ← kindOfString k
+    let kind ← if k = "dflt" then some Kind.gas else kindOfString k
     let nl ← if ns = "-" ∨ ns = "_" then some [] else (ns.splitOn ",").mapM numOrRef
     let b ← parseBlobs bs
     let subOf (t : String) : Option (List (Nat × Option Nat)) :=
@@ -183,9 +188,12 @@ def parseOpTokRefs (t : String) : Option (OpTok × List (Place × Nat)) := do
     let ol ← if os = "-" then some [] else (os.splitOn ",").mapM optOf
     let nrefs := (nl.mapIdx fun i x => x.2.map fun k => (Place.n i, k)).filterMap id
     let srefs := (sl.mapIdx fun i l => (l.mapIdx fun e x => x.2.map fun k => (Place.s i e, k)).filterMap id).flatten
-    let orefs := (ol.mapIdx fun j o =>
-      let occ := ((ol.take j).filter (fun p => p.1 = o.1)).length
-      (o.2.mapIdx fun a x => x.2.map fun k => (Place.o o.1 occ a, k)).filterMap id).flatten
+    -- (single pass: the occurrence index of each option among those of the same name)
+    let orefs := (ol.foldl (fun (acc : List (String × Nat) × List (Place × Nat)) o =>
+      let occ := ((acc.1.find? (·.1 = o.1)).map (·.2)).getD 0
+      let cnt := if acc.1.any (·.1 = o.1) then acc.1.map (fun p => if p.1 = o.1 then (p.1, p.2 + 1) else p) else acc.1 ++ [(o.1, 1)]
+      let here := if o.2.any (·.2.isSome) then (o.2.mapIdx fun a x => x.2.map fun k => (Place.o o.1 occ a, k)).filterMap id else []
+      (cnt, if here.isEmpty then acc.2 else acc.2 ++ here)) ([], [])).2
     some ({ observe := obs, kindName := k, kind,
             ctor := { n := (nl.map (·.1)).toArray, b := b.toArray, s := sl.map (·.map (·.1)) },
             opts := ol.map fun o => { name := o.1, v := o.2.map (·.1) } }, nrefs ++ srefs ++ orefs)
@@ -243,9 +251,15 @@ structure Obs where
   handle : Option Nat
   full : Option (Bytes × Nat × Nat × Nat)    -- H, L, S, B
   refs : List Nat := []                       -- handle values the harness resolved `#k` to, in order
+  addPanicked : Bool := false                 -- the add call panicked, but the entry serialised alone to `raw`
 
 def parseObs (t : String) : Option (Option Obs) :=   -- none = malformed; some none = panic
   if t = "panic" then some none else
+  if t.startsWith "serok:" then
+    let h := (t.drop 6).toString
+    (if h = "-" ∨ h = "" then some [] else hexToBytes h).map fun raw =>
+      some { raw, handle := none, full := none, refs := [], addPanicked := true }
+  else
   match t.splitOn "," with
   | [r, h, rf] => do
     let raw ← if r = "-" then some [] else hexToBytes r
@@ -361,6 +375,7 @@ def checkTbl (case impl : List String) : List Fail := Id.run do
     let mut nRdpas : Nat := 0
     let mut handles : List (Nat × Nat × Kind) := []   -- (handle value, entry index, kind)
     let mut hasImsic := false
+    let mut hasOpaque := false
     let mut bodyDig := fnvInit
     let mut ended := false
     -- observation 0: after `new`
@@ -376,14 +391,72 @@ def checkTbl (case impl : List String) : List Fail := Id.run do
         fails := fails ++ headLayoutFails tname 0 ⟨oid, otab, orev⟩ ctor h 0
       | none => fails := fails ++ bad "first observation must be full"
     | none => return [⟨"corr", "C01,C02,C03,C04,C05", "new-panics", tname⟩]
-    if obs.length ≠ ops.length + 1 ∧ ¬ (obs.any Option.isNone) then return bad s!"{ops.length} ops but {obs.length} observations"
+    if obs.length ≠ ops.length + 1 ∧ ¬ (obs.any fun o => match o with | none => true | some x => x.addPanicked) then return bad s!"{ops.length} ops but {obs.length} observations"
     let mut i := 0
     for op in ops do
       i := i + 1
       if ended then break
       let some ob := obs[i]? | break
+      if op.opq then
+        hasOpaque := true
+        match (match ob with | some o => if o.addPanicked then none else some o | none => none) with
+        | none => ended := true      -- refused (e.g. a second IMSIC): nothing is claimed about opaque entries alone
+        | some o =>
+          let claimed : Nat := match o.full with
+            | some (h, _, _, _) => ((readAt h 4 4).getD 0 + 2 ^ 32 - prevLenField) % 2 ^ 32
+            | none => o.raw.length
+          if o.full.isSome ∧ claimed ≠ o.raw.length then
+            fails := fails ++ [⟨"prop", "C02", "entry-length", s!"{tname} op#{i} {op.kindName}: Length grew by {claimed}, entry serialises to {o.raw.length} bytes"⟩]
+          let trueOffset := Tbl.firstOffset cfg + bodyLen
+          let offAdd := tOff.add [] o.raw.length 0
+          match (match offAdd with | none => none | some _ => t.add o.raw claimed (sum8 o.raw)) with
+          | none => ended := true
+          | some (_, t') =>
+            let hnd := match offAdd with | some (h, _) => h | none => 0
+            tOff := match offAdd with | some (_, x) => { x with body := [] } | none => tOff
+            t := { t' with body := [] }
+            bodyLen := bodyLen + o.raw.length
+            bodyDig := fnvBytes bodyDig o.raw
+            added := added.push (0, o.raw)
+            match o.handle with
+            | some hv =>
+              if hv ≠ hnd then
+                fails := fails ++ [⟨"corr", "C05", "handle", s!"{tname} op#{i} {op.kindName}: model handle {hnd} impl {hv}"⟩]
+              if hv ≠ trueOffset then
+                fails := fails ++ [⟨"prop", "C05", "handle-not-offset", s!"{tname} op#{i} {op.kindName}: handle {hv}, node begins at {trueOffset}"⟩]
+            | none => pure ()
+            match o.full with
+            | some (h, l, s, b) =>
+              fails := fails ++ headFails tname i t.head h cfg.cw cntOff
+              let lf := (readAt h 4 4).getD 0
+              prevLenField := lf
+              if s ≠ 0 then fails := fails ++ [⟨"prop", "C01", "sum-nonzero", s!"{tname} op#{i} {op.kindName}: image sums to {s}"⟩]
+              if lf ≠ l then
+                fails := fails ++ [⟨"prop", "C02", "length-field", s!"{tname} op#{i} {op.kindName}: Length {lf}, image {l} bytes"⟩]
+              if b ≠ bodyDig.toNat ∨ l ≠ t.head.length + bodyLen then
+                fails := fails ++ [⟨"prop", "C03", "body-not-entries", s!"{tname} op#{i}: the body is not the added entries in insertion order"⟩]
+              match shape.count with
+              | some (off, w) =>
+                if (readAt h off w) ≠ some (added.size % 256 ^ w) then
+                  fails := fails ++ [⟨"prop", "C03", "count-field", s!"{tname} op#{i}: count field {(readAt h off w).getD 0}, {added.size} entries added"⟩]
+              | none => pure ()
+            | none => prevLenField := (prevLenField + claimed) % 2 ^ 32
+        continue
       -- full model of the entry
       let built := buildEntry op.kind op.ctor op.opts
+      -- the add call panicked although the entry serialised alone: fine when the refusal is the
+      -- table's (offset limit, second IMSIC); when the model says the *entry* is oversized, its public
+      -- `Aml` impl returned bytes whose length / count field cannot describe them (C18)
+      match ob with
+      | some o =>
+        if o.addPanicked then
+          match built with
+          | .error e =>
+            if e = "refused" then
+              fails := fails ++ [⟨"prop", "C18", "standalone-not-refused", s!"{tname} op#{i} {op.kindName}: the table refuses the oversized entry, but serialising the entry alone returns {o.raw.length} bytes"⟩]
+          | .ok _ => pure ()
+      | none => pure ()
+      let ob : Option Obs := match ob with | some o => if o.addPanicked then none else some o | none => none
       let dupImsic : Bool := tname = "madt" && op.kind = .imsic && hasImsic
       let optTag := if op.opts.isEmpty then "C04" else if op.kind = .loc then "C04,C12" else "C04"
       match ob with
@@ -506,7 +579,11 @@ def checkTbl (case impl : List String) : List Fail := Id.run do
         -- the whole-program model (Acpi.Tables.Whole.runTable — what the whole-table theorems
         -- C01–C05 `whole_*` are about): same image, the revision byte being an observed parameter
         -- and the checksum byte a function of the rest
-        match tableIdOf tname ctor with
+        -- (the whole-program model re-runs every entry's builder program; for a case with tens of
+        --  thousands of builder calls — the 65 535-handle boundary — the op-by-op comparison above is kept
+        --  and this second, composed run is left to the smaller cases)
+        let ncalls : Nat := ops.foldl (fun (n : Nat) op => n + op.opts.length) 0
+        match (if hasOpaque || decide (ncalls > 20000) then none else tableIdOf tname ctor) with
         | none => pure ()
         | some T =>
           let wops := ops.map fun op => ({ k := op.kind, ctor := op.ctor, opts := op.opts } : AddOp)
@@ -523,7 +600,9 @@ def checkTbl (case impl : List String) : List Fail := Id.run do
               match linkedOfTokens rawOpToks with
               | none => fails := fails ++ bad "linked program"
               | some ls =>
-                if refsWellTyped ls then
+                -- (a program without references is its own linking: runLinked = runTable, already compared)
+                if ls.all (·.refs.isEmpty) then pure ()
+                else if refsWellTyped ls then
                   match runLinked T ⟨oid, otab, orev⟩ ls with
                   | none => fails := fails ++ [⟨"corr", "C05", "linked-program", s!"{tname}: runTable accepts the program with the implementation's reference values, runLinked refuses it"⟩]
                   | some (lhs, tl, _) =>
@@ -534,6 +613,7 @@ def checkTbl (case impl : List String) : List Fail := Id.run do
                         fails := fails ++ [⟨"corr", "C05", "linked-handle", s!"{tname}: add call #{idx}: model handle {lhs[idx]?.getD 0}, implementation {hv}"⟩]
                 else
                   fails := fails ++ [⟨"note", "-", "linked-program-not-well-typed", tname⟩]
+        if hasOpaque then return fails     -- entries without a layout claim: no walk, no handle typing
         match Spec.tableEntries shape img with
         | .error e => fails := fails ++ [⟨"prop", "C03", if nRdpas > 0 then "walk-with-rdpas" else "walk", s!"{tname}: {e}"⟩]
         | .ok es =>
@@ -551,50 +631,66 @@ end Drv
 namespace Drv
 open Acpi
 
+/-- an opaque entry alone: only C14 applies (raw form = serialised form, byte-sum helper, sinks, twice) -/
+def checkEntOpaque (op : OpTok) (impl : List String) : List Fail :=
+  match impl with
+  | [hx, same, ab, us, sinks, _] =>
+    match hexToBytes hx with
+    | none => [⟨"corr", "C14", "parse", "hex"⟩]
+    | some raw =>
+      (if same ≠ "same" then [⟨"prop", "C14", "nondeterministic", op.kindName⟩] else []) ++
+      (if ab ≠ "~" ∧ ab ≠ hx then [⟨"prop", "C14", "raw-form-differs", s!"{op.kindName}: as_bytes {ab} serialised {hx}"⟩] else []) ++
+      (if us ≠ "~" ∧ nat? us ≠ some (sum8 raw).toNat then [⟨"prop", "C14", "u8sum", s!"{op.kindName}: u8sum {us}, bytes sum to {(sum8 raw).toNat}"⟩] else []) ++
+      (if sinks ≠ "ok" ∧ sinks ≠ "~" then [⟨"prop", "C14", "sink-dependent", s!"{op.kindName}: {sinks}"⟩] else [])
+  | _ => []
+
+/-- a modelled entry alone -/
+def checkEntFull (op : OpTok) (impl : List String) : List Fail :=
+  let built := buildEntry op.kind op.ctor op.opts
+  let optTag := if op.opts.isEmpty then "C04" else if op.kind = .loc then "C04,C12" else "C04"
+  let wfNote : List Fail := if entryWf op.kind op.ctor op.opts then [] else [⟨"note", "-", "non-wf-case", op.kindName⟩]
+  wfNote ++
+  match impl with
+  | ["panic"] =>
+    (match built with
+     | .ok _ => [⟨"corr", optTag, "unexpected-panic", s!"{op.kindName}: impl panics, model emits"⟩]
+     | .error _ => []) ++
+    -- C12: every in-range (initiator, target) pair is accepted
+    (if op.kind = .loc ∧ locAllInRange op.ctor op.opts then
+       [⟨"prop", "C12", "in-range-pair-refused", s!"loc {op.ctor.num 4}x{op.ctor.num 5}: an assignment with in-range indices was refused"⟩]
+     else [])
+  | [hx, same, ab, us, sinks, baseS] =>
+    match hexToBytes hx with
+    | none => [⟨"corr", "C04", "parse", "hex"⟩]
+    | some raw =>
+      (match built with
+       | .error e =>
+         [⟨"corr", (if e = "refused" then optTag ++ ",C18" else optTag), "missing-panic", s!"{op.kindName}: model panics ({e}), impl emits"⟩] ++
+         (if e = "refused" then [⟨"prop", "C18", "not-refused", s!"{op.kindName}: an oversized count/size was serialised"⟩] else [])
+       | .ok a =>
+         let mraw := entryBytes op.kind a
+         let dtag := entryTag op.kind op.opts (firstDiffAt mraw raw)
+         (if mraw ≠ raw then [⟨"corr", dtag, "entry-bytes", s!"{op.kindName}: model {bytesToHex mraw} impl {hx}"⟩] else []) ++
+         (match Spec.layoutOracle op.kind op.ctor op.opts raw with
+          | some e => [⟨"prop", dtag, "layout", s!"{op.kindName}: {e}"⟩]
+          | none => [])) ++
+      (if op.opts.isEmpty ∨ baseS = "~" then [] else
+         match hexToBytes baseS with
+         | some base => c11Fails op.kind op.ctor op.opts raw base op.kindName
+         | none => []) ++
+      (if same ≠ "same" then [⟨"prop", "C14", "nondeterministic", op.kindName⟩] else []) ++
+      (if ab ≠ "~" ∧ ab ≠ hx then [⟨"prop", "C14", "raw-form-differs", s!"{op.kindName}: as_bytes {ab} serialised {hx}"⟩] else []) ++
+      (if us ≠ "~" ∧ nat? us ≠ some (sum8 raw).toNat then [⟨"prop", "C14", "u8sum", s!"{op.kindName}: u8sum {us}, bytes sum to {(sum8 raw).toNat}"⟩] else []) ++
+      (if sinks ≠ "ok" ∧ sinks ≠ "~" then [⟨"prop", "C14", "sink-dependent", s!"{op.kindName}: {sinks}"⟩] else [])
+  | _ => [⟨"corr", "C04,C14", "parse", "observation"⟩]
+
 /-- case `ent <op token>`  impl `<hex> same|DIFF <as_bytes hex|~> <u8sum|~> <sinks>` | `panic` -/
 def checkEnt (case impl : List String) : List Fail :=
   match case with
   | [tokS] =>
     match parseOpTok tokS with
     | none => [⟨"corr", "C04,C11,C12,C14", "parse", "op token"⟩]
-    | some op =>
-      let built := buildEntry op.kind op.ctor op.opts
-      let optTag := if op.opts.isEmpty then "C04" else if op.kind = .loc then "C04,C12" else "C04"
-      let wfNote : List Fail := if entryWf op.kind op.ctor op.opts then [] else [⟨"note", "-", "non-wf-case", op.kindName⟩]
-      wfNote ++
-      match impl with
-      | ["panic"] =>
-        (match built with
-         | .ok _ => [⟨"corr", optTag, "unexpected-panic", s!"{op.kindName}: impl panics, model emits"⟩]
-         | .error _ => []) ++
-        -- C12: every in-range (initiator, target) pair is accepted
-        (if op.kind = .loc ∧ locAllInRange op.ctor op.opts then
-           [⟨"prop", "C12", "in-range-pair-refused", s!"loc {op.ctor.num 4}x{op.ctor.num 5}: an assignment with in-range indices was refused"⟩]
-         else [])
-      | [hx, same, ab, us, sinks, baseS] =>
-        match hexToBytes hx with
-        | none => [⟨"corr", "C04", "parse", "hex"⟩]
-        | some raw =>
-          (match built with
-           | .error e =>
-             [⟨"corr", (if e = "refused" then optTag ++ ",C18" else optTag), "missing-panic", s!"{op.kindName}: model panics ({e}), impl emits"⟩] ++
-             (if e = "refused" then [⟨"prop", "C18", "not-refused", s!"{op.kindName}: an oversized count/size was serialised"⟩] else [])
-           | .ok a =>
-             let mraw := entryBytes op.kind a
-             let dtag := entryTag op.kind op.opts (firstDiffAt mraw raw)
-             (if mraw ≠ raw then [⟨"corr", dtag, "entry-bytes", s!"{op.kindName}: model {bytesToHex mraw} impl {hx}"⟩] else []) ++
-             (match Spec.layoutOracle op.kind op.ctor op.opts raw with
-              | some e => [⟨"prop", dtag, "layout", s!"{op.kindName}: {e}"⟩]
-              | none => [])) ++
-          (if op.opts.isEmpty ∨ baseS = "~" then [] else
-             match hexToBytes baseS with
-             | some base => c11Fails op.kind op.ctor op.opts raw base op.kindName
-             | none => []) ++
-          (if same ≠ "same" then [⟨"prop", "C14", "nondeterministic", op.kindName⟩] else []) ++
-          (if ab ≠ "~" ∧ ab ≠ hx then [⟨"prop", "C14", "raw-form-differs", s!"{op.kindName}: as_bytes {ab} serialised {hx}"⟩] else []) ++
-          (if us ≠ "~" ∧ nat? us ≠ some (sum8 raw).toNat then [⟨"prop", "C14", "u8sum", s!"{op.kindName}: u8sum {us}, bytes sum to {(sum8 raw).toNat}"⟩] else []) ++
-          (if sinks ≠ "ok" ∧ sinks ≠ "~" then [⟨"prop", "C14", "sink-dependent", s!"{op.kindName}: {sinks}"⟩] else [])
-      | _ => [⟨"corr", "C04,C14", "parse", "observation"⟩]
+    | some op => if op.opq then checkEntOpaque op impl else checkEntFull op impl
   | _ => [⟨"corr", "C04,C14", "parse", "case"⟩]
 
 end Drv
